@@ -1,7 +1,7 @@
 """C12 — any legal C API call sequence is contained: error codes, no crash, no aliasing.
 
 proof:   coq/theories/C12/{PoolDefs,PoolProofs,Ops,ApiDefs}.v, Properties_C12.v — an object-pool state machine for the ownership
-         and lifetime rules of the C API (172 modelled entry points); theorems: legal calls only receive live objects of the right
+         and lifetime rules of the C API (174 modelled entry points (186 rows: the array constructors have one row per array length)); theorems: legal calls only receive live objects of the right
          kind, consumed / destroyed objects stay dead, results are fresh handles, dependencies outlive their dependents (prepared
          geometry -> base, STRtree -> items), the pool stays well formed, and EVERY program the generator emits is legal.
 tie:     G  Gen/C12_api_table.v is written on every run from capi/geos_ts_c.cpp + capi/geos_c.h.in (return type, execute() overload and
@@ -231,13 +231,13 @@ def run(ctx):
     from props.C11 import run_cases, _run_chunk
     quick = ctx.quick
     ctx.cov['rule'] = ('legal programs (theorem gen_legal) of the extracted generator: 8 literal geometries from a table of 50 pathological WKT literals (empties at any level, '
-                       'NaN/Inf/1e300 ordinates, invalid topology, zero-length and single-point components, curved types, Z/M), then up to 40 calls over the 172 modelled entry points with '
+                       'NaN/Inf/1e300 ordinates, invalid topology, zero-length and single-point components, curved types, Z/M), then up to 40 calls over the 174 modelled entry points (186 rows: the array constructors have one row per array length) with '
                        'arguments from the pool and numeric parameters from boundary tables (NaN, +-Inf, +-0, negative, 1e300, DBL_MAX, INT_MAX/MIN, UINT_MAX, out-of-range indices and enum codes); '
                        'distinct by program text; non-trivial = at least one call beyond the literals returned an error value and at least one object was destroyed or consumed')
     ctx.assumptions += [
         'legal = the documented ownership contract as encoded in C12/Ops.v (hand-read from geos_c.h); interior pointers are never used to build dependent objects (a restriction of the generator, not of the API)',
         'tiny positive tolerances (1e-300, 1e-9) are not in the boundary table: for densify / buffer-like entry points they are legitimate requests for astronomically large outputs',
-        'GEOSGeom_createCollection_r / createPolygon_r are exercised with exactly two geometries; callbacks of the STRtree only read the item',
+        'the array constructors (GEOSGeom_createCollection_r for every type code, createPolygon_r, createCompoundCurve_r, createCurvePolygon_r) are exercised with arrays of 0..4 live geometries of ANY type (wrong-typed elements first, in the middle, last, several), never with NULL elements; every element counts as consumed whether the call succeeds or not, LeakSanitizer decides at the end of each program; callbacks of the STRtree only read the item',
         'per-call limit 10 s of CPU time (60 s wall clock), ASan+UBSan+LSan build, allocator_may_return_null=1 (a failed allocation must surface as an exception, not as an abort)',
         'the model is not proved equal to the implementation: a wrong ownership entry in the table shows up as a leak / double free under the harness']
     ok_asan = ctx.build_repo('asan')
